@@ -234,6 +234,24 @@ impl World {
         }
     }
 
+    pub fn build_runtime() -> tokio::runtime::Runtime {
+        tokio::runtime::Builder::new_current_thread()
+            .enable_all()
+            .event_interval(1)
+            .global_queue_interval(1)
+            .start_paused(true)
+            .build()
+            .expect("runtime")
+    }
+
+    /// Kill the current incarnation's runtime (tasks are dropped) and start a fresh one.
+    pub fn replace_runtime(&mut self) {
+        if let Some(old) = self.rt.take() {
+            old.shutdown_background();
+        }
+        self.rt = Some(Self::build_runtime());
+    }
+
     pub fn rt(&self) -> &tokio::runtime::Runtime {
         self.rt.as_ref().unwrap()
     }
